@@ -250,8 +250,8 @@ theorem ErrIn.of_forIn_inv {Q : ε × σ → Prop} {l : List γ} {init : β} {f 
   exact (forIn_error_inv P Q (fun a ha b hb => ⟨(hstep a ha b hb).2, fun p h => (hstep a ha b hb).1.out p h⟩) init hinit).1 p hp
 /-- a `for` loop without invariant -/
 theorem ErrIn.of_forIn {Q : ε × σ → Prop} {l : List γ} {init : β} {f : γ → β → StM ε σ (ForInStep β)}
-    (hstep : ∀ a b, ErrIn Q (f a b)) : ErrIn Q (forIn l init f) :=
-  ⟨fun p hp => forIn_error_of_step Q (fun a _ b p h => (hstep a b).out p h) init p hp⟩
+    (hstep : ∀ a, a ∈ l → ∀ b, ErrIn Q (f a b)) : ErrIn Q (forIn l init f) :=
+  ⟨fun p hp => forIn_error_of_step Q (fun a ha b p h => (hstep a ha b).out p h) init p hp⟩
 theorem ErrIn.mono {Q Q' : ε × σ → Prop} {x : StM ε σ α} (h : ErrIn Q x) (hq : ∀ p, Q p → Q' p) : ErrIn Q' x :=
   ⟨fun p hp => hq p (h.out p hp)⟩
 theorem ErrIn.of_eq {Q : ε × σ → Prop} {x y : StM ε σ α} (h : ErrIn Q y) (e : x = y) : ErrIn Q x := e ▸ h
